@@ -425,6 +425,11 @@ type c10Record struct {
 	VT     uint64 `json:"vt"`
 	AgeAnn uint64 `json:"ageann"`
 	AgeDup uint64 `json:"agedup"`
+
+	Tracked      *bool  `json:"tracked"`
+	AnnUntracked bool   `json:"annuntracked"`
+	Registry     string `json:"registry"`
+	Stale        bool   `json:"stale"`
 }
 
 // label names the message for signatures: new | update | dup-unused | dup-used | clear | shutdown-clear | stray
@@ -829,7 +834,9 @@ func c10JudgeLife(rc *RunCtx, sh *c10Shim, distinct map[string]bool) {
 	}
 	defer fh.Close()
 	var in bytes.Buffer
-	var looks []*c10Record
+	var looks, seqMsgs, clears, probes []*c10Record
+	const probeBase = 1 << 30 // ids of the live-session probes placed before a shutdown record
+	probe := func(id int) { fmt.Fprintf(&in, "L\t%d\t-\t-\t0\t0\n", id) }
 	msgs := map[int][]*c10Record{} // sequence -> published messages (for the witness)
 	seqFam := map[int]string{}
 	sc := bufio.NewScanner(fh)
@@ -850,12 +857,21 @@ func c10JudgeLife(rc *RunCtx, sh *c10Shim, distinct map[string]bool) {
 			rc.addCount("life.sequences", 1)
 			rc.addCount("life.sequences_"+r.Fam, 1)
 		case "M":
+			if r.Kind == "seq-clear" {
+				probe(probeBase + r.ID) // how many LIVE sessions does the detector hold when the station shuts down?
+				clears = append(clears, r)
+			} else {
+				seqMsgs = append(seqMsgs, r)
+			}
 			in.WriteString(c10ShimLine(r))
 			in.WriteByte('\n')
 			if len(msgs[r.Seq]) < 12 {
 				msgs[r.Seq] = append(msgs[r.Seq], r)
 			}
 			rc.addCount("life.messages_replayed", 1)
+		case "P":
+			probe(probeBase + r.ID)
+			probes = append(probes, r)
 		case "U":
 			rc.Violations = append(rc.Violations, Violation{Sig: "undecodable:seq", Msg: "the published bytes are not a StationToDetector message", Stage: "announce", Mon: "lifetime-agreement", Detail: r.witness(nil)})
 		case "L":
@@ -889,15 +905,122 @@ func c10JudgeLife(rc *RunCtx, sh *c10Shim, distinct map[string]bool) {
 				m[kv[:i]] = kv[i+1:]
 			}
 		}
-		if id, err := strconv.Atoi(m["id"]); err == nil && m["lookup"] == "1" {
+		if id, err := strconv.Atoi(m["id"]); err == nil {
 			replies[id] = m
 		}
+	}
+	pubWitness := func(seq int) []interface{} {
+		var ms []interface{}
+		for _, m := range msgs[seq] {
+			w := m.witness(nil)
+			delete(w, "case")
+			delete(w, "state")
+			ms = append(ms, w)
+		}
+		return ms
+	}
+	// (J) every announcement must be for a registration the station tracks when it publishes it
+	for _, r := range seqMsgs {
+		rc.addCount("evaluations", 1)
+		rc.addCount("life.announcements_checked_tracked_at_publish", 1)
+		if r.Tracked != nil && *r.Tracked && r.EPhantom != "" {
+			// the message must describe the registration as the station holds it
+			suffix := ""
+			if r.Stale {
+				suffix = ":markactive-on-stale-object"
+			}
+			op := "message"
+			if r.Op != nil {
+				op = map[int32]string{0: "unknown-op", 1: "new", 2: "update", 3: "clear"}[*r.Op]
+			}
+			bad := func(field, got, want string) {
+				w := r.witness(replies[r.ID])
+				w["sequence_so_far"], w["family"] = r.Ops, r.Fam
+				w["tracked_registration"] = map[string]interface{}{"phantom": c10IPText(r.EPhantom), "registrant": c10IPText(r.EClient), "dst_port": r.EPort}
+				rc.Violations = append(rc.Violations, Violation{Sig: "seq:mismatch:" + field + ":" + op + suffix,
+					Msg:   fmt.Sprintf("the %s announcement carries %s %s, the registration the station tracks has %s [%s]", op, field, got, want, r.Ops),
+					Stage: "announce", Mon: "lifetime-agreement", Detail: w})
+			}
+			if ePh, ok := c10Addr(r.EPhantom); ok && r.Phantom != nil {
+				if g, err := netip.ParseAddr(*r.Phantom); err != nil || g.Unmap() != ePh {
+					bad("phantom", *r.Phantom, c10IPText(r.EPhantom))
+				}
+			}
+			if eCl, ok := c10Addr(r.EClient); ok && r.Client != nil && r.EClient != strings.Repeat("00", 16) {
+				if g, err := netip.ParseAddr(*r.Client); err != nil || g.Unmap() != eCl {
+					bad("client", *r.Client, c10IPText(r.EClient))
+				}
+			}
+			if r.DPort != nil && *r.DPort != r.EPort {
+				bad("port", fmt.Sprint(*r.DPort), fmt.Sprint(r.EPort))
+			}
+		}
+		if r.Tracked != nil && !*r.Tracked {
+			op := "message"
+			if r.Op != nil {
+				op = map[int32]string{0: "unknown-op", 1: "new", 2: "update", 3: "clear"}[*r.Op]
+			}
+			w := r.witness(replies[r.ID])
+			w["sequence_so_far"], w["family"] = r.Ops, r.Fam
+			rc.Violations = append(rc.Violations, Violation{Sig: op + "-for-registration-not-tracked",
+				Msg:   fmt.Sprintf("the station published an announcement (%s) for a registration it does not track (RegistrationExists is nil right after the publish) [%s]", op, r.Ops),
+				Stage: "announce", Mon: "lifetime-agreement", Detail: w})
+		}
+	}
+	// (I) the shutdown at the end of every sequence
+	for _, r := range clears {
+		rep, pr := replies[r.ID], replies[probeBase+r.ID]
+		if rep == nil || pr == nil {
+			rc.Errors = append(rc.Errors, fmt.Sprintf("C10: the shim gave no reply for shutdown record %d", r.ID))
+			return
+		}
+		live, _ := strconv.Atoi(pr["len"])
+		la, _ := strconv.Atoi(rep["len_after"])
+		rc.addCount("life.shutdowns", 1)
+		if live == 0 {
+			rc.addCount("life.shutdowns_detector_had_no_live_session_undecidable", 1)
+			if la == 0 {
+				continue
+			}
+		}
+		rc.addCount("evaluations", 1)
+		rc.addCount("life.shutdowns_judged_detector_held_live_sessions", 1)
+		rc.addCount("life.shutdowns_judged_registry_"+r.Registry, 1)
+		distinct["shutdown/"+r.Registry+"/"+r.Fam] = true
+		if la != 0 {
+			why := "op=" + rep["op"]
+			if rep["parse"] != "ok" && rep["op"] != "Clear" {
+				why = "rejected-" + rep["parse"]
+			}
+			w := r.witness(rep)
+			w["live_sessions_before"], w["registry"], w["everything_published_in_this_sequence"] = live, r.Registry, pubWitness(r.Seq)
+			rc.Violations = append(rc.Violations, Violation{Sig: "seq-clear:not-acted-on:" + why, Msg: fmt.Sprintf("after the shutdown Clear the detector still holds %d sessions [%s]", la, r.Ops),
+				Stage: "announce", Mon: "lifetime-agreement", Detail: w})
+		}
+	}
+	for _, r := range probes {
+		pr := replies[probeBase+r.ID]
+		if pr == nil {
+			rc.Errors = append(rc.Errors, fmt.Sprintf("C10: the shim gave no reply for shutdown probe %d", r.ID))
+			return
+		}
+		live, _ := strconv.Atoi(pr["len"])
+		rc.addCount("life.shutdowns", 1)
+		if live == 0 {
+			rc.addCount("life.shutdowns_without_clear_detector_map_empty", 1) // nothing this launch announced is left: no harm observable
+			continue
+		}
+		rc.addCount("evaluations", 1)
+		rc.Violations = append(rc.Violations, Violation{Sig: "clear:not-published-at-shutdown:registry=" + r.Registry,
+			Msg:   fmt.Sprintf("the station shut down without publishing a Clear while the detector still diverts %d session(s) this launch announced [%s]", live, r.Ops),
+			Stage: "announce", Mon: "lifetime-agreement", Detail: map[string]interface{}{"sequence": r.Ops, "family": r.Fam, "shutdown": r.Case, "registry": r.Registry,
+				"virtual_time": time.Duration(r.VT).String(), "live_detector_sessions": live, "detector_reply": pr, "everything_published_in_this_sequence": pubWitness(r.Seq)}})
 	}
 	windowSeqs, windowSeqsFam := map[int]bool{}, map[string]int{}
 	nsample := 0
 	for _, r := range looks {
 		rep := replies[r.ID]
-		if rep == nil {
+		if rep == nil || rep["lookup"] != "1" {
 			rc.Errors = append(rc.Errors, fmt.Sprintf("C10: the shim gave no reply for lookup %d", r.ID))
 			return
 		}
@@ -921,6 +1044,9 @@ func c10JudgeLife(rc *RunCtx, sh *c10Shim, distinct map[string]bool) {
 		shape := "no-redelivery"
 		if r.HadDup {
 			shape = "after-redelivery"
+		}
+		if r.Stale {
+			shape = "after-markactive-on-stale-object"
 		}
 		distinct[fmt.Sprintf("lookup/%s/%s/station=%t/detector=%t/window=%t/%s", r.State, shape, r.Holds, tracked, r.Window, r.Fam)] = true
 		witness := func() map[string]interface{} {
@@ -951,6 +1077,11 @@ func c10JudgeLife(rc *RunCtx, sh *c10Shim, distinct map[string]bool) {
 				nsample++
 				rc.Samples = append(rc.Samples, map[string]interface{}{"monitor": "lifetime-agreement", "case": witness()})
 			}
+		case tracked && r.AnnUntracked:
+			// not the harmless kind: the session exists because the station announced something it does not hold
+			rc.Violations = append(rc.Violations, Violation{Sig: "lifetime-agreement:detector-diverts-for-announcement-station-never-held:" + r.State,
+				Msg:   fmt.Sprintf("%v into the sequence the detector diverts the client's flow because of a message published while the station did not track the registration; the station serves nothing for it [%s]", time.Duration(r.VT), r.Ops),
+				Stage: "announce", Mon: "lifetime-agreement", Detail: witness()})
 		case tracked:
 			rc.addCount("life.lookups_detector_outlives_station_harmless", 1)
 		default:
